@@ -26,6 +26,7 @@ type val struct {
 	kind string // u8 u16 u24 u32 u64 i8 i16 i24 i32 i64 bytes
 	u    uint64
 	b    []byte
+	via  int // byte strings: 0 WriteBytes/ReadBytes, 1 Write (io.Writer)/ReadBytes, 2 WriteString/ReadString
 }
 
 func (v val) size() int {
@@ -58,6 +59,7 @@ func genVal(t *rapid.T) val {
 	v := val{kind: k}
 	if k == "bytes" {
 		v.b = rapid.SliceOfN(rapid.Byte(), 0, 40).Draw(t, "bytes")
+		v.via = rapid.IntRange(0, 2).Draw(t, "via")
 		return v
 	}
 	u := rapid.OneOf(rapid.Uint64(), rapid.SampledFrom([]uint64{0, 1, 0x7f, 0x80, 0xff, 0x7fff, 0x8000, 0xffff, 0x7fffff, 0x800000, 0xffffff, 0x7fffffff, 0x80000000, 0xffffffff, 1 << 63, ^uint64(0), 0x0102030405060708})).Draw(t, "u")
@@ -126,7 +128,16 @@ func write(w *parse.BinaryWriter, v val) {
 	case "i64":
 		w.WriteInt64(int64(v.u))
 	case "bytes":
-		w.WriteBytes(v.b)
+		switch v.via {
+		case 0:
+			w.WriteBytes(v.b)
+		case 1:
+			if n, err := w.Write(v.b); n != len(v.b) || err != nil {
+				panic(fmt.Sprintf("BinaryWriter.Write(%d bytes) = %d, %v", len(v.b), n, err))
+			}
+		default:
+			w.WriteString(string(v.b))
+		}
 	}
 }
 
@@ -158,6 +169,9 @@ func read(r *parse.BinaryReader, v val) (uint64, []byte) {
 		return uint64(uint32(r.ReadInt32())), nil
 	case "i64":
 		return uint64(r.ReadInt64()), nil
+	}
+	if v.via == 2 {
+		return 0, []byte(r.ReadString(int64(len(v.b))))
 	}
 	return 0, r.ReadBytes(int64(len(v.b)))
 }
@@ -352,7 +366,7 @@ func open(t *rapid.T, backend string, data []byte) opened {
 
 func TestProp_RoundTrip(t *testing.T) {
 	tmpDir = t.TempDir()
-	ev.Describe("roundtrip", "a list of 1-12 typed writes (u8..u64, i8..i64, byte strings 0-40) x byte order, written by BinaryWriter (bytes compared with an independent encoder, destination prefix preserved), truncated at a drawn byte (half of the cases: not truncated), served by each of the 11 constructors/backends (memory, reader with Bytes(), ReadSeeker with n<0 and n given, ReaderAt, ReadAll, sequential reader, *os.File via File/Reader, path, mmap path/file) behind contract-legal adversaries (1/2/7-byte reads, (n,io.EOF) with the last bytes, ReadAt returning (n,io.EOF) at the exact end); typed reads in order interleaved with Pos/Len/Err, Read(p), ReadAt(p,off), Clone; oracle: values == written, Pos == consumed, Len == total-Pos, Err()==nil until a read needs more bytes than remain, then zero values and io.EOF; non-trivial = >= 3 typed values and a read straddling the end, an exact-fit final read or a ReadAt")
+	ev.Describe("roundtrip", "a list of 1-12 typed writes (u8..u64, i8..i64, byte strings 0-40 written with WriteBytes, Write or WriteString and read with ReadBytes or ReadString) x byte order, written by BinaryWriter (bytes compared with an independent encoder, destination prefix preserved), truncated at a drawn byte (half of the cases: not truncated), served by each of the 11 constructors/backends (memory, reader with Bytes(), ReadSeeker with n<0 and n given, ReaderAt, ReadAll, sequential reader, *os.File via File/Reader, path, mmap path/file) behind contract-legal adversaries (1/2/7-byte reads, (n,io.EOF) with the last bytes, ReadAt returning (n,io.EOF) at the exact end); typed reads in order interleaved with Pos/Len/Err, Read(p), ReadAt(p,off), Clone; oracle: values == written, Pos == consumed, Len == total-Pos, Err()==nil until a read needs more bytes than remain, then zero values and io.EOF; non-trivial = >= 3 typed values and a read straddling the end, an exact-fit final read or a ReadAt")
 	ev.Check(t, 500, func(t *rapid.T) {
 		little := rapid.Bool().Draw(t, "little")
 		nv := rapid.IntRange(1, 12).Draw(t, "nvals")
